@@ -186,14 +186,21 @@ def run_prog_property(ctx, prop_files, gen_case, classes, n_quick, n_thorough, r
     no_model = [bool(c[1].get("no_model")) for c in cases]
     impl, mod = run_pair(ctx, scripts, variant, exact=exact, timeout=timeout, model_scripts=[("wopen" if nm else s) for s, nm in zip(scripts, no_model)])
     mod = [(";".join(o.split()[0] + " ?" for o in s.split(";") if o.split()) if nm else m) for s, m, nm in zip(scripts, mod, no_model)]
+    # a watchdog time-out under full parallel load is not yet a verdict: such cases are run again, one at a time, with three times the
+    # budget (a genuine hang still times out; a slow but terminating call - huge lazily mapped allocations under ASan - does not)
+    slow = [i for i, a in enumerate(impl) if a.rstrip().endswith("FAULT TIMEOUT") and not cases[i][1].get("known") and not cases[i][1].get("huge_gap")]
+    for i in slow[:8]:
+        r1, _ = run_pair(ctx, [scripts[i]], variant, exact=exact, timeout=3 * timeout, model=False)
+        ctx.extra.setdefault("timeouts_rerun_alone", []).append({"script": scripts[i][:200], "second_run": r1[0][-60:]})
+        impl[i] = r1[0]
     nviol = 0
     dist = {}
     for (script, meta), a, m in zip(cases, impl, mod):
         mism = [x for x in compare_case(script, a, m) if x["cls"] in classes or x["cls"] == "fault"]
         is_corpus = bool(meta.get("corpus"))
-        if extra_check and not is_corpus:
+        if extra_check and not is_corpus and not meta.get("known"):
             mism += extra_check(script, meta, a, m)
-        k = key_of(meta) if (key_of and not is_corpus) else script
+        k = key_of(meta) if (key_of and not is_corpus and not meta.get("known")) else script
         for dk in (meta.get("dist") or []):
             dist[dk] = dist.get(dk, 0) + 1
         ctx.count(k, nontrivial=not meta.get("trivial", False), sample={"script": script[:300], "impl": a[:200]})
